@@ -6,6 +6,35 @@ PURE_OBS = None  # compare every line
 NOT_APPLICABLE = {}
 
 PROPS = {
+    'C03': {
+        'families': [('corpus:defects', 0, 0), ('ep:close', 2500, 80000), ('ep:mixed', 800, 20000), ('ep:hostile', 500, 20000)],
+        'rule': 'interleavings of user calls (read, write of each kind, flush, close) with peer frames (data, ping, close, garbage after '
+                'close), transport EOF/reset at any point, WouldBlock on any write or flush, both roles; corpus = the witnesses of the '
+                'defects found while modelling (D1-D7)',
+        'assumptions': ['raw Message::Frame writes are outside the property (explicit escape hatch): excluded by hypothesis Op.noRaw'],
+        'trusted_base': ['Generated/State.lean (WsState, is_active, can_read, check_not_terminated) from the translator'],
+        'level_text': 'Kernel-checked invariant over ALL histories and ALL transport scripts (induction over the op list and the read loop): '
+                      'fifo, buffer bound, CloseLast (nothing is ever queued after a Close), slot discipline, drained-before-termination; '
+                      'from it: writes refused and world unchanged once closing; closing irreversible; no message after a Close; '
+                      'ConnectionClosed only after a Close was received and (server) everything queued was accepted and nothing pending or the '
+                      'transport ended, client only after transport end; never a clean close without a received Close; terminated state frozen '
+                      'with AlreadyClosed; can_write/can_read agree with write/read.',
+        'level_note': 'The theorems are about the model of the FIXED code (see known_findings.json: D1-D7 were genuine violations of this '
+                      'property and were repaired); the model is tied to the code by the correspondence on every run and the monitor '
+                      'evaluates the seven sub-claims on every implementation trace.',
+    },
+    'C10': {
+        'families': [('corpus:defects', 0, 0), ('ep:backpressure', 2000, 60000), ('ep:sizes', 300, 5000), ('ep:mixed', 500, 20000)],
+        'rule': 'message sequences x per-call transport write outcomes (accept k of n for many k, WouldBlock, repeated) x flush outcomes '
+                'x write_buffer_size',
+        'assumptions': [],
+        'trusted_base': [],
+        'level_text': 'Kernel-checked for every reachable state: accepted ++ buffered = encoding of the queue (no byte lost, repeated or '
+                      'reordered under every write outcome); a user data message is queued exactly once, after all earlier ones, iff its write '
+                      'returned Ok or a transport error; no other call queues user data; flush = Ok implies buffer empty, everything accepted, '
+                      'transport flushed after its last write.',
+        'level_note': 'Unbounded histories by induction; tie to code by correspondence (wire bytes compared byte for byte, masks fixed by the hook).',
+    },
     'C06': {
         'families': [('corpus:limits', 0, 0), ('ep:limits', 1500, 40000), ('ep:codec', 500, 10000)],
         'rule': 'frame/fragment size patterns around the configured limits (limit-1, limit, limit+1; limits 0,1,5,10,125,126,300), '
